@@ -4,9 +4,10 @@ import json, subprocess, glob, os
 ROOT = os.path.dirname(os.path.dirname(os.path.abspath(__file__)))
 ALL = ["C%02d" % i for i in range(1, 21)]
 TEXT = {
- "C01": ("proof", "wf predicates (stride = dimension, whole number of coordinates, ends aligned / non-decreasing / finishing at the end) are postconditions of every constructor and setter of the level 0-2 types, and SetCoords-then-Coords returns bit-identical nested coordinates (ghost clients over the contracts), for all inputs and all loop iterations; stride-mismatch rejection with the error's fields. MultiPolygon: constructors only.", "5/C01"),
+ "C01": ("proof", "wf predicates (stride = dimension, whole number of coordinates, ends aligned / non-decreasing / finishing at the end) are postconditions of every constructor and setter of the level 0-2 types, and SetCoords-then-Coords returns bit-identical nested coordinates (ghost clients over the contracts), for all inputs and all loop iterations; stride-mismatch rejection with the error's fields. MultiPolygon: constructors, SetCoords and Push produce well-formed geometries (content round trip not stated).", "5/C01"),
  "C02": ("proof", "Push / part accessor / NumX contracts over the list-of-parts view (part i = flat[start_i:ends_i)) for Polygon, MultiLineString, MultiPoint, incl. layout-mismatch leaves the receiver unchanged; Swap exchanges all fields. The induction over Push histories is the per-operation obligations.", "5/C02"),
  "C04": ("proof", "For every reader behaviour allowed by the io contracts and every byte content: no index, slice, conversion, nil or type-assertion panic in wkbcommon readers, wkb.Read/Unmarshal, ewkb.Read/Unmarshal and the SQL Scan wrappers (safety obligations, all discharged); each decoder returns an error or a geometry that is well formed for its type (C01 predicates) built only through constructors/Push whose preconditions are proved at the call; every count-sized make and every part loop is dominated by its MaxGeometryElements check at the right level (alloc-guard obligations).", "5/C04"),
+ "C07": ("proof", "GeoJSON decoding is total and canonical in layout: guessLayout0-3 return exactly the layout table of the statement (0/1 ordinates rejected, 2/3/4 -> XY/XYZ/XYZM, n>4 -> Layout(n), no first position -> DefaultLayout); Geometry.Decode / Unmarshal / Feature.UnmarshalJSON / FeatureCollection.UnmarshalJSON never panic for any json.Unmarshal outcome and return an error or a geometry that is well formed for its type (via the proved SetCoords contracts incl. level 3), collections recurse through the function's own contract; decodeBBox accepts exactly 4 or 6 numbers and, with encodeBBox, carries min then max ordinates.", "5/C07"),
  "C08": ("proof", "Over ordered reals with +-Inf constants: geom0.Bounds is the exact per-dimension min/max (recursive min/max functions, shown to be a lower/upper bound that is attained, by induction); NewBounds/IsEmpty; extendLayout keeps every semantic dimension (Z with Z, M with M); Extend's result per semantic dimension is fmin/fmax of the old box and the geometry's box, hence order independent (two-call ghost client); collections recurse (any depth, via a global validity precondition); Overlaps/OverlapsPoint agree with closed-interval arithmetic.", "5/C08"),
  "C09": ("proof", "Over the reals: doubleArea1 = trapezoid sum = shoelace sum for closed rings (telescoping lemma by induction), Length = sum of segment lengths, additivity over the parts of level-2 geometries, zero measures for points and lines, and no panic on any well-formed geometry incl. MultiPolygons with empty polygons.", "5/C09"),
  "C10": ("proof", "OrientationIndex returns the sign of the exact orientation determinant: (1) sign logic over the reals - the filter returns sgn((Ox-Px)(Ey-Py)-(Oy-Py)(Ex-Px)) or declines, the big-number branch evaluates (E-O)x(P-E), a polynomial identity links the two forms, antisymmetry and cyclic invariance are lemmas; (2) exactness of the big-number branch by precision accounting - every SetFloat64/Add/Sub/Mul has a proved [exact] precondition (receiver precision >= bits needed, from grid/magnitude exponents propagated through the five operations), for all finite float64 inputs.", "5/C10"),
